@@ -86,7 +86,8 @@ Apply(e) ==
       [] e.ev = "rx" ->
            LET r == Notify(ns[n], Cfg(n), e.id, e.data) IN
            IF r.unmodeled THEN Fail("input outside this specification")
-           ELSE IF Has2(e, "exc") # r.exc THEN Fail("rx exception behaviour")
+           \* (a frame fed in through the python-can listener: the listener logs and swallows exceptions of notify())
+           ELSE IF Has2(e, "exc") # (r.exc /\ ~Has2(e, "flags")) THEN Fail("rx exception behaviour")
            ELSE S([ns EXCEPT ![n] = r.ns], pc, [pend EXCEPT ![n] = r.out \o @], claimed)
       [] e.ev = "ptx" -> S(ns, pc, pend, Note(claimed, e))
       [] e.ev = "wake" ->
